@@ -20,7 +20,7 @@ KANI_MODULES = {
     'msgpack': dict(src='src/msgpack.rs', file='msgpack.rs', modpath='msgpack'),
     'input': dict(src='src/input.rs', file='input.rs', modpath='input'),
     'parser': dict(src='src/yaml/chunker/parser.rs', file='parser.rs', modpath='yaml::chunker::parser'),
-    'chunker': dict(src='src/yaml/chunker.rs', file='chunker.rs', modpath='yaml::chunker'),
+    'chunker': dict(src='src/yaml/chunker.rs', file='chunker.rs', modpath='yaml::chunker', requires=['parser']),  # uses parser::verif_kani's scripted libyaml
     'stream': dict(src='src/transcode/stream.rs', file='stream.rs', modpath='transcode::stream'),
     'yaml': dict(src='src/yaml.rs', file='yaml.rs', modpath='yaml'),
     'value': dict(src='src/transcode/value.rs', file='value.rs', modpath='transcode::value'),
@@ -116,6 +116,12 @@ HARNESSES = [
       fns=['yaml::encoding::Utf8Encoder::read', 'yaml::encoding::Utf8Encoder::next_char'], timeout=900, min_covers=3),
     H('U-ENC-8', 'encoding', 'utf8_encoder_read_step_big', 'bounded-size', ['C07', 'C04', 'C12', 'C02'], tier='thorough', bounds='caller buffer <= 6 B, <= 3 source characters per step, any remainder',
       fns=['yaml::encoding::Utf8Encoder::read'], timeout=1800, min_covers=3),
+    H('U-ENC-R', 'encoding', 'encoder_from_reader_utf8_passthrough', 'bounded-size', ['C07', 'C02'], tier='thorough', bounds='UTF-8-detected streams, contents symbolic, (length, bytes per read) in {(6,1),(3,2),(5,3),(4,4),(0,1)}',
+      fns=['yaml::encoding::Encoder::from_reader', 'yaml::encoding::Encoder::new', 'yaml::encoding::Encoder::read', 'yaml::encoding::ArrayBuffer::write'], timeout=1800,
+      assumes=['std::io::copy stubbed by an executable statement of its documented contract']),
+    H('U-ENC-R', 'encoding', 'encoder_from_reader_utf16le_reencoded', 'bounded-size', ['C07', 'C02'], tier='thorough', bounds='UTF-16LE two-character text (any printable ASCII pair) with / without BOM, 1 / 2 / 3 / 6 bytes per read',
+      fns=['yaml::encoding::Encoder::from_reader', 'yaml::encoding::Utf8Encoder::read', 'yaml::encoding::Utf16Decoder::next'], timeout=1800,
+      assumes=['std::io::copy stubbed by an executable statement of its documented contract']),
     # ---- U-MP-G reader variant, U-MP-T, C18 depth wiring ----
     H('U-MP-G', 'msgpack', 'mp_gate_reader_source_error_propagates', 'complete', ['C09', 'C12'], bounds='reader input: source fails or yields any one byte',
       fns=['msgpack::input_matches', 'input::Ref::prefix'], timeout=900, min_covers=2,
@@ -148,19 +154,22 @@ HARNESSES = [
     H('U-CHK', 'chunker', 'chunk_reader_cuts_partition_stream', 'bounded-size', ['C03'], bounds='every size combination start <= a <= b <= c <= 3 B (enumerated), contents symbolic',
       fns=['yaml::chunker::ChunkReader::take_to_offset', 'yaml::chunker::ChunkReader::trim_to_offset'], timeout=1800,
       assumes=['libyaml marks monotone']),
-    H('U-CHK', 'chunker', 'chunker_next_two_documents_with_gap', 'bounded', ['C03', 'C05', 'C09', 'C10'], bounds='script: map document [0,2), gap, scalar document [4,7); stream contents concrete distinct letters', requires=['parser'],
+    H('U-CHK', 'chunker', 'chunker_next_two_documents_with_gap', 'bounded', ['C03', 'C05', 'C09', 'C10'], bounds='script: map document [0,2), gap, scalar document [4,7); stream contents concrete distinct letters',
       fns=['yaml::chunker::Chunker::next', 'yaml::chunker::Chunker::new', 'yaml::chunker::ChunkReader::read', 'yaml::chunker::ChunkReader::take_to_offset', 'yaml::chunker::ChunkReader::trim_to_offset',
            'yaml::chunker::Document::is_collection'], timeout=900,
       assumes=['libyaml replaced by a scripted event source with concrete monotone marks (Parser::new / Parser::next_event stubbed); Drop of the parser skipped']),
-    H('U-CHK', 'chunker', 'chunker_next_second_document', 'bounded', ['C03', 'C05', 'C04'], bounds='from the state after the first document: script SCALAR, DOC-END(7), STREAM-END', requires=['parser'],
+    H('U-CHK', 'chunker', 'chunker_next_second_document', 'bounded', ['C03', 'C05', 'C04'], bounds='from the state after the first document: script SCALAR, DOC-END(7), STREAM-END',
       fns=['yaml::chunker::Chunker::next', 'yaml::chunker::Chunker::new', 'yaml::chunker::ChunkReader::read', 'yaml::chunker::ChunkReader::take_to_offset', 'yaml::chunker::ChunkReader::trim_to_offset',
            'yaml::chunker::Document::is_collection'], timeout=900,
       assumes=['libyaml replaced by a scripted event source with concrete monotone marks (Parser::new / Parser::next_event stubbed); Drop of the parser skipped']),
-    H('U-CHK', 'chunker', 'chunker_next_end_of_stream_is_final', 'bounded', ['C03', 'C05', 'C04'], bounds='from a state with / without a pending document: script STREAM-END; two calls of next()', requires=['parser'],
+    H('U-CHK', 'chunker', 'chunker_next_end_of_stream_is_final', 'bounded', ['C03', 'C05', 'C04'], bounds='from a state with / without a pending document: script STREAM-END; two calls of next()',
       fns=['yaml::chunker::Chunker::next', 'yaml::chunker::Chunker::new', 'yaml::chunker::ChunkReader::read', 'yaml::chunker::ChunkReader::take_to_offset', 'yaml::chunker::ChunkReader::trim_to_offset',
            'yaml::chunker::Document::is_collection'], timeout=900,
       assumes=['libyaml replaced by a scripted event source with concrete monotone marks (Parser::new / Parser::next_event stubbed); Drop of the parser skipped']),
-    H('U-CHK', 'chunker', 'chunker_next_empty_stream', 'bounded', ['C03', 'C04'], bounds='script: empty stream', requires=['parser'],
+    H('U-CHK', 'chunker', 'chunker_next_wraps_errors_as_invalid_data', 'bounded', ['C09', 'C12'], bounds='script: the parser fails at once with an error of another kind',
+      fns=['yaml::chunker::Chunker::next'], timeout=900,
+      assumes=['libyaml replaced by a scripted event source (Parser::new / Parser::next_event stubbed)']),
+    H('U-CHK', 'chunker', 'chunker_next_empty_stream', 'bounded', ['C03', 'C04'], bounds='script: empty stream',
       fns=['yaml::chunker::Chunker::next', 'yaml::chunker::Chunker::new', 'yaml::chunker::ChunkReader::read', 'yaml::chunker::ChunkReader::take_to_offset', 'yaml::chunker::ChunkReader::trim_to_offset',
            'yaml::chunker::Document::is_collection'], timeout=900,
       assumes=['libyaml replaced by a scripted event source with concrete monotone marks (Parser::new / Parser::next_event stubbed); Drop of the parser skipped']),
@@ -195,7 +204,7 @@ HARNESSES = [
       fns=['transcode::stream::transcode', 'transcode::stream::Visitor::visit_u64', 'transcode::stream::Visitor::visit_seq', 'transcode::stream::Visitor::visit_map'], timeout=900, min_covers=2),
     H('U-TX', 'stream', 'tx_msgpack_e2e_map', 'bounded', ['C01', 'C06'], bounds='document {"k": null}; REAL rmp_serde serializer behind the REAL transcoder',
       fns=['transcode::stream::transcode', 'transcode::stream::Visitor::visit_u64', 'transcode::stream::Visitor::visit_seq', 'transcode::stream::Visitor::visit_map'], timeout=900, min_covers=0),
-    H('U-VAL', 'value', 'value_scalar_types_and_bits_kept', 'complete', ['C01', 'C06'], bounds='18 visit forms (all scalar widths, char, unit, three string forms) x every 128-bit payload',
+    H('U-VAL', 'value', 'value_scalar_types_and_bits_kept', 'complete', ['C08', 'C01', 'C06'], bounds='18 visit forms (all scalar widths, char, unit, three string forms) x every 128-bit payload',
       fns=['transcode::value::Value::deserialize', 'transcode::value::Value::serialize'], timeout=900, min_covers=4),
     # ---- U-YML / U-TOML / U-JSN / U-LIB / U-EXT ----
     H('U-YML', 'yaml', 'yaml_slice_fast_path_requires_utf8', 'complete', ['C07', 'C02'], bounds='every slice of length 0..=4 (the detector reads 4 bytes)',
@@ -226,7 +235,7 @@ HARNESSES = [
       fns=['toml::Output::output_value'], timeout=900, assumes=['toml::to_string_pretty stubbed (must not be reached)']),
     H('U-TOML', 'toml', 'toml_output_value_rejects_array', 'complete', ['C08'], bounds='Array root',
       fns=['toml::Output::output_value'], timeout=900, assumes=['toml::to_string_pretty stubbed (must not be reached)']),
-    H('U-TOML', 'toml', 'toml_table_root_written_once', 'complete', ['C08', 'C12'], bounds='serializer Ok(1..=3 byte document) / Err; writer ok / failing',
+    H('U-TOML', 'toml', 'toml_table_root_written_once', 'complete', ['C08', 'C12'], bounds='serializer Ok(1..=3 byte document) / Err; writer ok / failing / accepting any short piece per write',
       fns=['toml::Output::output_value'], timeout=600, min_covers=3,
       assumes=['toml::to_string_pretty stubbed by its assumed contract (Ok(document) or Err)', 'std::hash::RandomState::new stubbed by a fixed seed (table is empty, never hashed)']),
     H('U-JSN', 'json', 'json_input_matches_mapping_ok', 'complete', ['C09', 'C12'], bounds='every slice <= 3 B; trial accepts',
@@ -235,25 +244,25 @@ HARNESSES = [
     H('U-JSN', 'json', 'json_input_matches_mapping_io_error', 'complete', ['C09', 'C12'], bounds='every slice <= 3 B; source fails during the trial',
       fns=['json::input_matches'], timeout=900, min_covers=1,
       assumes=['serde_json trial stubbed by its assumed contract; serde_json::Error::is_io stubbed by the ghost category of the error the stub produced']),
-    H('U-JSN', 'json', 'json_output_value_framing_ok', 'complete', ['C03', 'C12'], bounds='one document; serializer body stubbed',
+    H('U-JSN', 'json', 'json_output_value_framing_ok', 'complete', ['C05', 'C03', 'C12'], bounds='one document; serializer body stubbed',
       fns=['json::Output::transcode_value'], timeout=600, assumes=['serde_json::to_writer stubbed: writes a marker through the writer or fails']),
     H('U-JSN', 'json', 'json_output_value_framing_body_fails', 'complete', ['C03', 'C12'], bounds='serializer refuses the document',
       fns=['json::Output::transcode_value'], timeout=600, assumes=['serde_json::to_writer stubbed']),
     H('U-JSN', 'json', 'json_output_value_framing_newline_write_fails', 'complete', ['C12'], bounds='writer fails on the framing newline',
       fns=['json::Output::transcode_value'], timeout=600, assumes=['serde_json::to_writer stubbed']),
-    H('U-JSN', 'json', 'json_output_from_null_document_is_one_line', 'complete', ['C03', 'C01'], bounds='document = null; REAL transcoder and REAL serde_json serializer',
+    H('U-JSN', 'json', 'json_output_from_null_document_is_one_line', 'complete', ['C05', 'C03', 'C01'], bounds='document = null; REAL transcoder and REAL serde_json serializer',
       fns=['json::Output::transcode_from', 'transcode::stream::transcode'], timeout=600),
-    H('U-JSN', 'json', 'json_output_from_true_document_is_one_line', 'complete', ['C03', 'C01'], bounds='document = true; REAL transcoder and REAL serde_json serializer',
+    H('U-JSN', 'json', 'json_output_from_true_document_is_one_line', 'complete', ['C05', 'C03', 'C01'], bounds='document = true; REAL transcoder and REAL serde_json serializer',
       fns=['json::Output::transcode_from', 'transcode::stream::transcode'], timeout=600),
     H('U-JSN', 'json', 'json_output_from_failed_document_not_framed', 'complete', ['C03', 'C11', 'C12'], bounds='deserializer fails; REAL transcoder and REAL serde_json serializer',
       fns=['json::Output::transcode_from', 'transcode::stream::transcode'], timeout=600),
     H('U-JSN', 'json', 'json_output_from_writer_fault_at_newline', 'complete', ['C12', 'C11'], bounds='writer fails exactly at the framing newline; REAL transcoder and REAL serde_json serializer',
       fns=['json::Output::transcode_from', 'transcode::stream::transcode'], timeout=600),
-    H('U-YML', 'yaml', 'yaml_output_value_framing_ok', 'complete', ['C03', 'C12'], bounds='one document; serializer body stubbed',
+    H('U-YML', 'yaml', 'yaml_output_value_framing_ok', 'complete', ['C05', 'C03', 'C12'], bounds='one document; serializer body stubbed',
       fns=['yaml::Output::transcode_value'], timeout=600, assumes=['serde_yaml::to_writer stubbed: writes a marker through the writer or fails']),
     H('U-YML', 'yaml', 'yaml_output_value_framing_separator_write_fails', 'complete', ['C12'], bounds='writer fails inside the --- line',
       fns=['yaml::Output::transcode_value'], timeout=600, assumes=['serde_yaml::to_writer stubbed']),
-    H('U-LIB', 'lib', 'translator_flush_forwards_to_writer', 'complete', ['C12'], bounds='4 output formats x 4 writer flush results',
+    H('U-LIB', 'lib', 'translator_flush_forwards_to_writer', 'complete', ['C12', 'C16'], bounds='4 output formats x 4 writer flush results',
       fns=['Translator::flush', 'Dispatcher::flush', 'json::Output::flush', 'msgpack::Output::flush', 'toml::Output::flush', 'yaml::Output::flush'], timeout=300, min_covers=2),
     H('U-EXT', 'main', 'extension_table', 'complete', ['C14'], bounds='every extension byte string of length 0..=7, present or absent',
       fns=['main::InputPath::extension_format'], timeout=900, min_covers=3,
@@ -406,3 +415,15 @@ NOT_APPLICABLE = {
     'C15': 'the guarantee is the content of a BufWriter<StdoutLock> at process::exit in main() (flush after each input, destructors skipped); '
            'no function under contract carries it (Translator::flush forwarding is checked under C12)',
 }
+
+
+def modules_closure(names):
+    """Harness modules to inject for the given module names (a harness file may use another one's helpers)."""
+    out, todo = {}, list(names)
+    while todo:
+        n = todo.pop()
+        if n in out:
+            continue
+        out[n] = KANI_MODULES[n]
+        todo += KANI_MODULES[n].get('requires', [])
+    return out
